@@ -68,23 +68,30 @@ impl<T: Config> InputQueue<T> {
         self.first_incorrect_frame
     }
 
-    /// Changes the frame delay and returns any fill inputs that were implicitly added to bridge the
-    /// gap. The caller is responsible for sending these to remote peers so they see consecutive
-    /// frame numbers.
+    /// Changes the frame delay and returns any fill inputs that were added to bridge the gap. The
+    /// caller is responsible for sending these to remote peers so they see consecutive frame
+    /// numbers.
     pub(crate) fn set_frame_delay(&mut self, delay: usize) -> Vec<PlayerInput<T::Input>> {
-        let old_delay = self.frame_delay;
         self.frame_delay = delay;
 
-        if delay <= old_delay || self.last_added_frame == NULL_FRAME {
+        if self.last_added_frame == NULL_FRAME {
             return Vec::new();
         }
 
-        let fill_count = delay - old_delay;
+        // The next user input will land on `next_input_frame`. Every frame between the newest
+        // queued frame and that frame is bridged with the last known input. After an earlier
+        // decrease the queue may still be ahead of that frame, in which case there is no gap.
+        // The fills are queued right away, so that the queue and what the remote peers are told
+        // stay in agreement even if the delay is changed again before the next input arrives.
+        let next_input_frame = self.last_user_frame + 1 + delay as i32;
         let fill_start = self.last_added_frame + 1;
         let last_input = self.inputs[Self::prev_pos(self.head)];
-        (0..fill_count as i32)
-            .map(|i| PlayerInput::new(fill_start + i, last_input.input))
-            .collect()
+        let mut fills = Vec::new();
+        for frame in fill_start..next_input_frame {
+            self.add_input_by_frame(last_input, frame);
+            fills.push(PlayerInput::new(frame, last_input.input));
+        }
+        fills
     }
 
     pub(crate) fn reset_prediction(&mut self) {
